@@ -108,6 +108,10 @@ def run(tier):
     rnd = random.Random(chk.seed * 65537 + 13)
     quick = tier == "quick"
     mc_dag.run_mc(chk, quick, which="C13")
+    import toy
+
+    for m_ in toy.run_toy(chk, quick, rnd, "C13", kinds=['scale'])[:5]:
+        chk.violation(f"C13|toy-universe|target={m_['target']}|{m_['what'][:40]}", f"toy universe (MC_Dag configuration {m_['id']}): {m_['what']} for target {m_['target']}", m_)
     traces = [converter_events()]
     chk.count(len(traces[0].events))
     dates = ["2023-01-01"] + rnd.sample([d for d in DATES if d != "2023-01-01"], 1 if quick else len(DATES) - 1)
